@@ -59,11 +59,8 @@ def run(chk, prog):
                       and x.args and f.dominates(c.bb, x.bb)]
             ok = False
             why = "no delimiter check on the buffer after the read"
-            oks = []
-            for b in f.reachable:
-                for st in f.stmts(b):
-                    if st["k"] == "assign" and st["lhs"][0] == 0 and st["rv"]["k"] == "agg" and st["rv"].get("variant") == "Ok":
-                        oks.append(b)
+            from ..flow import result_blocks
+            oks = result_blocks(f, "Ok")
             for x in checks:
                 # its result decides between an error exit and the Ok return
                 tracked, cons = flow_forward(f, [x.dest[0]], [r"cmp::PartialEq::(ne|eq)$"])
